@@ -124,6 +124,8 @@ type Scenario struct {
 	// Static: no topology change of any kind during the run (LocateKey is then compared exactly).
 	Static bool `json:"static,omitempty"`
 	ParkPD bool `json:"park_pd,omitempty"`
+	// Pipelined: the programs contain pipelined transactions (mode pipe-R only).
+	Pipelined bool `json:"pipelined,omitempty"`
 }
 
 // ---------------------------------------------------------------------------------------------
@@ -233,6 +235,7 @@ type txnGen struct {
 	nts    int
 	revUnb bool
 	rBack  bool // reference backend: async commit / 1PC available
+	pipe   bool // pipelined transactions are generated (mode pipe-R)
 	ops    []Op
 }
 
@@ -331,7 +334,7 @@ func (g *txnGen) begin(slot int, pess bool) {
 func (g *txnGen) episode() {
 	r := g.r
 	x := r.Intn(20)
-	if g.rBack && r.Intn(8) == 0 {
+	if g.pipe && r.Intn(4) == 0 {
 		x = 100
 	}
 	switch {
@@ -471,7 +474,7 @@ func (g *txnGen) episode() {
 }
 
 func genTxnActor(r *rand.Rand, sc *Scenario, client, ks, actor, episodes int, readOnly bool) Actor {
-	g := &txnGen{sc: sc, r: r, ks: ks, actor: actor, revUnb: sc.RevUnb, rBack: sc.Backend == "R"}
+	g := &txnGen{sc: sc, r: r, ks: ks, actor: actor, revUnb: sc.RevUnb, rBack: sc.Backend == "R", pipe: sc.Pipelined}
 	a := Actor{Client: client, Ks: ks, StartUs: 17 * (actor + 1)}
 	if readOnly {
 		for i := 0; i < episodes; i++ {
@@ -529,6 +532,7 @@ func (sc *Scenario) baseClients() {
 func genTxn(cfg simkit.RunConfig, backend string) *Scenario {
 	r := simkit.Rand(cfg.Seed, "gen")
 	sc := baseScenario(r, "txn", backend)
+	sc.Pipelined = cfg.Mode == "pipe-R"
 	sc.baseClients()
 	for c, ks := range sc.Clients {
 		sc.Setup = append(sc.Setup, genFill(r, sc, c, ks, c))
